@@ -1049,6 +1049,97 @@ pub proof fn lemma_wl8_det(d: Seq<u8>, q0: int, a: Seq<(u8, Seq<u8>)>, b: Seq<(u
     }
 }
 
+
+/// completeness helper: if a full list `items` tiles [q0, end) and the parser has read the prefix `done` up to pos < end,
+/// then `done` is a proper prefix of `items` and the next item of `items` starts at pos and fits
+pub proof fn lemma_tlv16_next(d: Seq<u8>, q0: int, items: Seq<(u16, Seq<u8>)>, end: int, done: Seq<(u16, Seq<u8>)>, pos: int)
+    requires tlv16(d, q0, items, end), tlv16(d, q0, done, pos), pos < end
+    ensures
+        done.len() < items.len(),
+        forall|i: int| 0 <= i < done.len() ==> items[i] == done[i],
+        ({ let f = items[done.len() as int]; pos + 4 + f.1.len() <= end && end <= d.len() && f.0 == be16(d[pos], d[pos + 1]) && f.1.len() == be16(d[pos + 2], d[pos + 3]) && f.1 == d.subrange(pos + 4, pos + 4 + f.1.len()) }),
+    decreases done.len()
+{
+    if items.len() == 0 {
+        if done.len() > 0 { lemma_tlv16_front(d, q0, done, pos); }
+        assert(false);
+    }
+    lemma_tlv16_front(d, q0, items, end);
+    if done.len() > 0 {
+        lemma_tlv16_front(d, q0, done, pos);
+        assert(items[0].1 =~= done[0].1);
+        assert(items[0] == done[0]);
+        let q1 = q0 + 4 + items[0].1.len();
+        let it = items.subrange(1, items.len() as int);
+        let dt = done.subrange(1, done.len() as int);
+        lemma_tlv16_next(d, q1, it, end, dt, pos);
+        assert forall|i: int| 0 <= i < done.len() implies items[i] == done[i] by {
+            if i > 0 { assert(it[i - 1] == items[i] && dt[i - 1] == done[i]); }
+        }
+        assert(it[dt.len() as int] == items[done.len() as int]);
+    }
+}
+
+/// completeness helper: if a full list `items` tiles [q0, end) and the parser has read the prefix `done` up to pos < end,
+/// then `done` is a proper prefix of `items` and the next item of `items` starts at pos and fits
+pub proof fn lemma_lv8_next(d: Seq<u8>, q0: int, items: Seq<Seq<u8>>, end: int, done: Seq<Seq<u8>>, pos: int)
+    requires lv8(d, q0, items, end), lv8(d, q0, done, pos), pos < end
+    ensures
+        done.len() < items.len(),
+        forall|i: int| 0 <= i < done.len() ==> items[i] == done[i],
+        ({ let f = items[done.len() as int]; pos + 1 + f.len() <= end && end <= d.len() && d[pos] == f.len() && f == d.subrange(pos + 1, pos + 1 + f.len()) }),
+    decreases done.len()
+{
+    if items.len() == 0 {
+        if done.len() > 0 { lemma_lv8_front(d, q0, done, pos); }
+        assert(false);
+    }
+    lemma_lv8_front(d, q0, items, end);
+    if done.len() > 0 {
+        lemma_lv8_front(d, q0, done, pos);
+        assert(items[0] =~= done[0]);
+        assert(items[0] == done[0]);
+        let q1 = q0 + 1 + items[0].len();
+        let it = items.subrange(1, items.len() as int);
+        let dt = done.subrange(1, done.len() as int);
+        lemma_lv8_next(d, q1, it, end, dt, pos);
+        assert forall|i: int| 0 <= i < done.len() implies items[i] == done[i] by {
+            if i > 0 { assert(it[i - 1] == items[i] && dt[i - 1] == done[i]); }
+        }
+        assert(it[dt.len() as int] == items[done.len() as int]);
+    }
+}
+
+/// completeness helper: if a full list `items` tiles [q0, end) and the parser has read the prefix `done` up to pos < end,
+/// then `done` is a proper prefix of `items` and the next item of `items` starts at pos and fits
+pub proof fn lemma_wl8_next(d: Seq<u8>, q0: int, items: Seq<(u8, Seq<u8>)>, end: int, done: Seq<(u8, Seq<u8>)>, pos: int)
+    requires wl8(d, q0, items, end), wl8(d, q0, done, pos), pos < end
+    ensures
+        done.len() < items.len(),
+        forall|i: int| 0 <= i < done.len() ==> items[i] == done[i],
+        ({ let f = items[done.len() as int]; pos + 2 + f.1.len() <= end && end <= d.len() && d[pos] == f.0 && d[pos + 1] == f.1.len() && f.1 == d.subrange(pos + 2, pos + 2 + f.1.len()) }),
+    decreases done.len()
+{
+    if items.len() == 0 {
+        if done.len() > 0 { lemma_wl8_front(d, q0, done, pos); }
+        assert(false);
+    }
+    lemma_wl8_front(d, q0, items, end);
+    if done.len() > 0 {
+        lemma_wl8_front(d, q0, done, pos);
+        assert(items[0].1 =~= done[0].1);
+        assert(items[0] == done[0]);
+        let q1 = q0 + 2 + items[0].1.len();
+        let it = items.subrange(1, items.len() as int);
+        let dt = done.subrange(1, done.len() as int);
+        lemma_wl8_next(d, q1, it, end, dt, pos);
+        assert forall|i: int| 0 <= i < done.len() implies items[i] == done[i] by {
+            if i > 0 { assert(it[i - 1] == items[i] && dt[i - 1] == done[i]); }
+        }
+        assert(it[dt.len() as int] == items[done.len() as int]);
+    }
+}
+
 // ======================================================================== misc std specs
 pub assume_specification<T, F: FnOnce(T) -> bool> [Option::<T>::is_some_and] (o: Option<T>, f: F) -> (r: bool)
     ensures o is None ==> !r,
